@@ -867,6 +867,19 @@ class TreeTransform(Generic[TreeFnT]):
     """Behave like Chain, but also fuse all the fns into one transform."""
     if child.is_noop:
       return self
+    if self.agg_fns and child.fns:
+      # Fused, the functions of the child would run before this aggregation.
+      raise ValueError(
+          'Aggregation has to be the last node, cannot fuse the functions of'
+          f' the same named transform "{child.name}" after it.'
+      )
+    if self.agg_fns and child.agg_fns and self.slicers != child.slicers:
+      # Slicers belong to the transform, fused they would slice both.
+      raise ValueError(
+          'Cannot fuse the aggregations of the same named transform'
+          f' "{child.name}" with different slicers, got {self.slicers=} and'
+          f' {child.slicers=}.'
+      )
     if self.agg_output_keys.intersection(child.agg_output_keys):
       raise ValueError(
           'Cannot chain a transform with conflicting agg_output_keys'
